@@ -15,6 +15,7 @@ assumptions = ["tau+(t) >= tau(t) and c >= the property's condition number, so t
 
 def gen_cases(ctx):
     r = ctx.rng
+    rot = Rot(r)
     cases = []
     for ind in KINDS:
         grid = params_grid(ind, [1, 2, 3, 5])
@@ -31,13 +32,13 @@ def gen_cases(ctx):
                 n = r.choice([6, 3 * p + 5]) if gi < len(grid) else min(2 * p + 30, 700)
                 use_bars = ind in NO_SCALAR or (ind in ("FAST", "SLOW") and rep % 2 == 1)
                 if use_bars:
-                    st = r.choice(["walk", "segments", "gaps", "grid", "segments"])
+                    st = rot.pick((ind, "b"), ["walk", "segments", "gaps", "grid"])
                     bars = bar_stream(r, n, st, p=p)
                     if st == "grid":
                         bars = [(b[0], b[1], b[2], b[3], b[4]) for b in bars]
                     feeds = [("b", 0) + b for b in bars]
                 else:
-                    st = r.choice(["walk", "ties", "periodic", "pgrid", "flatafter", "segments", "uniform"])
+                    st = rot.pick((ind, "n"), ["walk", "ties", "periodic", "pgrid", "flatafter", "segments", "uniform"])
                     feeds = [("n", 0, x) for x in scalar_stream(r, n, st, p=p, positive=True)]
                 cases.append(Case("%s_g%d_%d" % (ind, gi, rep), [new_op(0, ind, pr)] + feeds, dump=(0,) if p <= 64 else (),
                                   meta={"ind": ind, "params": pr, "n": n, "style": st}))
